@@ -189,6 +189,12 @@ func (ex *Exec) havocKey(st *State, key string) {
 		}
 		return
 	}
+	if strings.HasPrefix(key, "E:") {
+		// a typed element key havocked on its own: the whole sort (conservative)
+		if i := strings.Index(key, "@"); i >= 0 {
+			key = key[:i]
+		}
+	}
 	sort := ex.tm.KeySort(key, ex.prog.Contracts)
 	if cur, ok := st.Heap[key]; ok {
 		sort = cur.Sort
@@ -201,6 +207,73 @@ func (ex *Exec) havocKey(st *State, key string) {
 	}
 	ex.tm.declareSorts(sort)
 	st.Heap[key] = ex.ts.Fresh("H!"+key, sort)
+}
+
+// havocSet havocs a write-set. An element key may carry the Go element type
+// of the arrays that are written ("E:<sort>@<type>", see Prepass.elemKey).
+// Arrays of another element type are different objects (arrIs) and a write
+// through a []T can only reach an array of T, so those keep their contents:
+// the new heap array equals the old one at every array whose element type is
+// not among the written ones.
+func (ex *Exec) havocSet(st *State, keys []string) {
+	ts := ex.ts
+	typed := map[string][]string{}
+	whole := map[string]bool{}
+	var plain []string
+	seen := map[string]bool{}
+	var expand func(k string)
+	expand = func(k string) {
+		if strings.HasSuffix(k, "*") {
+			for _, full := range ex.prog.Pre.KeysWithPrefix(strings.TrimSuffix(k, "*")) {
+				expand(full)
+			}
+			return
+		}
+		if seen[k] {
+			return
+		}
+		seen[k] = true
+		if strings.HasPrefix(k, "E:") {
+			if i := strings.Index(k, "@"); i >= 0 {
+				typed[k[:i]] = append(typed[k[:i]], k[i+1:])
+				return
+			}
+			whole[k] = true
+		}
+		plain = append(plain, k)
+	}
+	for _, k := range keys {
+		expand(k)
+	}
+	sort.Strings(plain)
+	for _, k := range plain {
+		ex.havocKey(st, k)
+	}
+	var bases []string
+	for b := range typed {
+		if !whole[b] {
+			bases = append(bases, b)
+		}
+	}
+	sort.Strings(bases)
+	for _, b := range bases {
+		srt := ex.tm.KeySort(b, ex.prog.Contracts)
+		if srt == nil {
+			ex.havocKey(st, b)
+			continue
+		}
+		before := ex.heapGet(st, b, srt)
+		ex.havocKey(st, b)
+		after := st.Heap[b]
+		tys := typed[b]
+		sort.Strings(tys)
+		a := ts.BoundVar("a", SInt)
+		var other []*Term
+		for _, ty := range tys {
+			other = append(other, ts.Neq(ex.uf("arrtype", SInt, a), ex.typeIDOfKey(ty)))
+		}
+		ex.assume(ts.True(), ts.Forall([]*Term{a}, ts.Implies(ts.And(other...), ts.Eq(ts.Select(after, a), ts.Select(before, a)))))
+	}
 }
 
 // ---------------------------------------------------------------------------
@@ -308,8 +381,9 @@ func (ex *Exec) uf(name string, ret *Sort, args ...*Term) *Term {
 	return ex.ts.App(ex.ts.Fun(name, ret, sorts...), args...)
 }
 
-func (ex *Exec) typeID(t types.Type) *Term {
-	k := typeKey(t)
+func (ex *Exec) typeID(t types.Type) *Term { return ex.typeIDOfKey(typeKey(t)) }
+
+func (ex *Exec) typeIDOfKey(k string) *Term {
 	if _, ok := ex.typeIDs[k]; !ok {
 		ex.typeIDs[k] = len(ex.typeIDs) + 1
 	}
@@ -336,7 +410,9 @@ func (ex *Exec) mapIs(m *Term, mt *types.Map) {
 // el: arrays of different element types are different objects, although their
 // contents live in one heap array per element sort.
 func (ex *Exec) arrIs(arr *Term, el types.Type) {
-	if arr.IsLit() {
+	if arr.IsLit() || strings.Contains(typeKey(el), "$") {
+		// inside a generic function the element type is a type parameter:
+		// nothing is known about the arrays it is instantiated with
 		return
 	}
 	id := ex.typeID(el)
@@ -400,6 +476,17 @@ func (ex *Exec) freshObject(st *State, name string) *Term {
 		ex.heapSet(st, key, ts.Store(arr, r, ex.tm.zeroSort(sort.Args[1])))
 	}
 	return r
+}
+
+// knownSliceArray: the backing array of a slice value that is read from
+// memory existed when it was read (so it differs from anything allocated later).
+func (ex *Exec) knownSliceArray(st *State, t *Term, typ types.Type) {
+	if typ == nil || t.Sort.Name != "Slice" {
+		return
+	}
+	if _, isSlice := types.Unalias(typ).Underlying().(*types.Slice); isSlice {
+		ex.knownRef(st, ex.ts.SelectField(ex.tm.slice, 0, t))
+	}
 }
 
 // knownRef records that reference t existed at the current time.
@@ -589,6 +676,7 @@ func (ex *Exec) load(st *State, addr Value, typ types.Type) Value {
 			if isPointerLike(typ) {
 				ex.knownRef(st, tv.T)
 			}
+			ex.knownSliceArray(st, tv.T, typ)
 		}
 		return v
 	case TV:
@@ -602,6 +690,7 @@ func (ex *Exec) load(st *State, addr Value, typ types.Type) Value {
 		if isPointerLike(typ) {
 			ex.knownRef(st, t)
 		}
+		ex.knownSliceArray(st, t, typ)
 		return TV{t}
 	case Unknown:
 		ex.note("load through unknown pointer: %s", p.Why)
